@@ -1452,8 +1452,8 @@ func c16Pool(rc *RuleCtx) {
 }
 
 func init() {
-	register(&Rule{ID: "C01.cwd", Floor: 6, Also: []string{"C07", "C11", "C17", "C03", "C04", "C02"},
-		AlsoOnly: map[string][]string{"C02": {"File).Chdir"}}, AlsoFloor: map[string]int{"C02": 2},
+	register(&Rule{ID: "C01.cwd", Floor: 6, Also: []string{"C07", "C11", "C17", "C03", "C04", "C02", "C05"},
+		AlsoOnly: map[string][]string{"C02": {"File).Chdir"}, "C05": {").Chdir"}}, AlsoFloor: map[string]int{"C02": 2, "C05": 2},
 		Text: "a fresh MemFS / OrefaFS has a working directory: the constructor calls SetCurDir with the root of the default volume (a non-empty constant, or the volume name followed by the separator) - with an empty working directory a relative path is not made absolute, the walk skips its first byte (Mkdir(\"foo\") creates /oo) and Stat(\"\") panics; every other SetCurDir of the two packages (Chdir of the file system and of an open directory) hands over an absolute path: Path() of the walk's iterator, the first result of Abs, or a handle field assigned only such values - never the name a handle was opened with, nor an index key",
 		Run:  c01Cwd})
 }
@@ -1600,6 +1600,11 @@ func absolutePathValue(rc *RuleCtx, pk string, v ssa.Value, depth int) (string, 
 		case *ssa.Extract:
 			if c, ok := x.Tuple.(*ssa.Call); ok && x.Index == 0 {
 				if fn := calleeFunc(c); fn != nil && fn.Name() == "Abs" {
+					if pk == "memfs" {
+						// MemFS resolves symbolic links: the directory reached is what the walk's iterator says, the
+						// lexical absolute path names the link (chdir(2) through a link lands in its target)
+						return "the lexical result of Abs, not the path the walk resolved", false
+					}
 					why = "first result of Abs"
 					continue
 				}
